@@ -36,6 +36,8 @@ PROFILES = {
     'c09': dict(kinds=['key', 'chordout', 'xx', 'lwh', 'taphold'] + K_CHORD1, depth=2),
     'c10': dict(kinds=['key', 'xx', 'lwh', 'multi'] + K_FORK, depth=2),
     'c14': dict(kinds=['key', 'key', 'chordout', 'multi', 'taphold', 'tapdance', 'oneshot', 'fork', 'switch', 'chord1', 'unmod', 'src', 'trans', 'lwh', 'lwh', 'xx'], depth=3, overrides=True),
+    'c01': dict(kinds=K_BASIC + K_TAPHOLD + K_ONESHOT + K_TAPDANCE + K_MACRO + K_FORK + K_RPT + K_CUSTOM + K_CHORD1,
+                depth=3, tag='all', balanced_vkeys=True),
     'all': dict(kinds=K_BASIC + K_TAPHOLD + K_ONESHOT + K_TAPDANCE + K_MACRO + K_FORK + K_RPT + K_CUSTOM + K_CHORD1,
                 depth=3, tag='all'),
 }
@@ -215,7 +217,7 @@ class CfgGen:
                 return self.key()
             v = rng.choice(self.vkeys)
             return rng.choice(['(on-press %s %s)', '(on-release %s %s)']) % (
-                rng.choice(['press-vkey', 'release-vkey', 'tap-vkey', 'toggle-vkey']), v) if rng.random() < 0.7 else \
+                rng.choice(['release-vkey', 'tap-vkey'] if self.p.get('balanced_vkeys') else ['press-vkey', 'release-vkey', 'tap-vkey', 'toggle-vkey']), v) if rng.random() < 0.7 else \
                 '(hold-for-duration %d %s)' % (self.timeout(), self.vkeys[0])   # one hold-for vkey: hash-map order is observable otherwise
         if k == 'capsword':
             return '(caps-word %d)' % rng.choice([50, 200])
